@@ -212,6 +212,8 @@ func c16Run(c *core.Ctx) *core.Result {
 	o.Owners = []uint32{0, 1234, 65534}
 	o.Special = true
 	o.Xattrs = true
+	// hard-link groups whose members the patterns may select separately
+	o.Links = core.NewRand(core.Mix(c.Seed, "C16-links", c.Index)).P(1, 3)
 	// one case in eight runs the copy and the walk as an ordinary user over a
 	// tree that holds directories this user may not list (root:root 0700)
 	unpriv := core.NewRand(core.Mix(c.Seed, "C16-unpriv", c.Index)).P(1, 8)
